@@ -78,6 +78,11 @@ pub fn check(mut ctx: Ctx, replay: Option<J>) -> ! {
   if let Some(r) = &replay {
     recs.push(run_case(&r["case"]["case"]));
   } else {
+    // the regular-expression specification against its recorded oracle (Python's re, tools/gen_regex_selftest.py)
+    let st = tlc.run(Run::new("SelfTest_Regex", "SelfTest_Regex.cfg").timeout(600).workers(4));
+    if !st.ok || st.lines.iter().any(|l| l.contains("SELFTEST-FAIL") || l.contains("is violated")) {
+      tool_error(&format!("SelfTest_Regex failed: {}", st.error_text));
+    }
     let gen = tlc.run(Run::new("Gen_C08", "Gen_C08.cfg").timeout(1200));
     if !gen.ok {
       tool_error(&format!("Gen_C08 failed: {}", gen.error_text));
